@@ -37,7 +37,19 @@ W_ADOPT_FAIL = {"tokens": [], "seed": 1, "jobs": [
     {"cls": "VTask", "name": "d2", "embed": [[1, "direct"]], "toks": [], "code": 0, "marker": False, "copy_of": None, "adopt": None}],
     "schedule": [["submit", 0], ["submit", 1], ["deliver", [[0, "lockin"]]], ["deliver", [[0, "lockout"]]],
                  ["deliver", [[0, "proc"]]], ["deliver", [[0, "doneh"]]], ["submit", 2], ["deliver", [[1, "adopt"]]]]}
-WITNESSES = [W_RESUBMIT, W_OVERWRITE, W_ABORT, W_ADOPT_FAIL]
+# a task whose truth value is False (a class with __len__, no items) used as a parameter of the next one
+W_FALSY = {"tokens": [], "seed": 1, "jobs": [
+    {"cls": "VTaskEmpty", "name": "e0", "embed": [], "toks": [], "code": 0, "marker": False, "copy_of": None, "adopt": None},
+    {"cls": "VTask", "name": "e1", "embed": [[0, "direct"]], "toks": [], "code": 0, "marker": False, "copy_of": None, "adopt": None}],
+    "schedule": [["submit", 0], ["submit", 1], ["deliver", [[1, "lockin"]]], ["deliver", [[0, "lockin"]]]]}
+# a failed job submitted again with the Dependency objects of its first submission (a retry loop that keeps
+# `dep = token.dependency(1)`): the object still says OK, check() sees no change
+W_REUSE = {"tokens": [1], "seed": 1, "jobs": [
+    {"cls": "VTask", "name": "r0", "embed": [], "toks": [[0, 1]], "code": 1, "marker": False, "copy_of": None, "adopt": None},
+    {"cls": "VTask", "name": "r0", "embed": [], "toks": [[0, 1]], "code": 0, "marker": False, "copy_of": 0, "adopt": None, "reuse": True}],
+    "schedule": [["submit", 0], ["deliver", [[0, "lockin"]]], ["deliver", [[0, "lockout"]]], ["deliver", [[0, "proc"]]],
+                 ["deliver", [[0, "lockout"]]], ["deliver", [[0, "doneh"]]], ["submit", 1]]}
+WITNESSES = [W_RESUBMIT, W_OVERWRITE, W_ABORT, W_ADOPT_FAIL, W_FALSY, W_REUSE]
 
 
 def gen_workload(rng, profile="c06"):
@@ -115,6 +127,23 @@ def gen_workload(rng, profile="c06"):
     krng = random.Random(w["seed"] ^ 0x70CE)
     w["tokkind"] = ["file" if krng.random() < 0.4 and not any(sum(1 for tt, _ in s["toks"] if tt == t) > 1 for s in jobs)
                     else "proc" for t in range(len(tokens))]
+    # some plain tasks are collection-like: falsy as long as their `items` parameter is empty
+    # a re-submission may come with the Dependency objects of the first one (same requests then)
+    for s in jobs:
+        root = s.get("copy_of")
+        if (profile == "c06" and root is not None and jobs[root]["toks"] and not jobs[root].get("over")
+                and krng.random() < 0.4):
+            s["toks"] = [list(x) for x in jobs[root]["toks"]]
+            s["over"] = False
+            s["reuse"] = True
+    # (a copy has the class of its original; a task used as a pre-task stays a plain VTask)
+    aspre = {k for s in jobs for (k, how) in s["embed"] if how.startswith("pre_task")}
+    for i, s in enumerate(jobs):
+        if s.get("copy_of") is None and s["cls"] == "VTask" and krng.random() < 0.25:
+            group = [i] + [k for k, s2 in enumerate(jobs) if s2.get("copy_of") == i]
+            if not (set(group) & aspre):
+                for k in group:
+                    jobs[k]["cls"] = "VTaskEmpty"
     return w
 
 
@@ -194,6 +223,12 @@ def pre_init_upstream(w, trace, k, seen=None):
                 seen.add(r)
                 out |= pre_init_upstream(w, trace, r, seen)
     return out
+
+
+def falsy_task(trace, k):
+    """submission k is a task object whose truth value is False"""
+    f = trace.get("falsy") or {}
+    return bool(f.get(k, f.get(str(k), False)))
 
 
 def upstream(w, trace, j):
@@ -279,7 +314,9 @@ def oracle_c06(w, trace, report):
         if not sn["pending"]:
             asleep = sorted({o["state"] for o in sn["jobs"] if o is not None and o["registered"] and o["result"] is None})
             if asleep:
-                report("C06:hang:jobs-asleep:" + "+".join(asleep),
+                reused = any(o is not None and o["registered"] and o["result"] is None and w["jobs"][jj].get("reuse")
+                             for jj, o in enumerate(sn["jobs"]))
+                report("C06:hang:jobs-asleep:" + "+".join(asleep) + (":reused-dependency-object" if reused else ""),
                        f"after step {si}: nothing pending, nothing ready, jobs without final state: {asleep}")
             elif sn["wait"] == "blocked":
                 report("C06:hang:wait-blocked-all-final" + (":after-resubmit" if resub else ""),
@@ -302,7 +339,9 @@ def oracle_c04(w, trace, report):
                              if resolve(trace, kk) == k)
                 collected = ["job", k] in (trace["deps"][j] or [])
                 key = "C04:launched-before-upstream-done:" + ("not-collected" if not collected else "collected")
-                if dupobj and not collected:
+                if not collected and any(falsy_task(trace, kk) for (kk, _h) in w["jobs"][j]["embed"] if resolve(trace, kk) == k):
+                    key += ":falsy-task"
+                elif dupobj and not collected:
                     key += ":duplicate-object"
                 elif not collected:
                     key += ":" + "+".join(how)
@@ -325,12 +364,15 @@ def oracle_c04_deps(w, trace, report):
             hows = sorted({h for (kk, h) in spec["embed"] if resolve(trace, kk) in missing})
             dupobj = any(h.endswith("_obj") and trace["dup"][kk] is not None for (kk, h) in spec["embed"]
                          if resolve(trace, kk) in missing)
+            falsy = any(falsy_task(trace, kk) for (kk, _h) in spec["embed"] if resolve(trace, kk) in missing)
             if missing:
-                key = "C04:dependency-missing:" + ("duplicate-object" if dupobj else "+".join(hows))
+                key = "C04:dependency-missing:" + ("falsy-task" if falsy else "duplicate-object" if dupobj else "+".join(hows))
                 report(key, f"job {j}: upstream {missing} (embedded as {hows}) not among the registered dependencies {got}")
             if extra:
                 viadup = any(h.endswith("_obj") and trace["dup"][kk] is not None for (kk, h) in spec["embed"])
-                report("C04:dependency-extra" + (":parameters-of-duplicate-object" if viadup else ""), f"job {j}: registered dependencies {extra} are not upstream tasks of its parameters")
+                viafalsy = any(falsy_task(trace, kk) for (kk, _h) in spec["embed"])
+                report("C04:dependency-extra" + (":parameters-of-falsy-task" if viafalsy else
+                                                 ":parameters-of-duplicate-object" if viadup else ""), f"job {j}: registered dependencies {extra} are not upstream tasks of its parameters")
 
 
 def g_value(v):
@@ -345,14 +387,15 @@ def g_value(v):
     raise ValueError(v)
 
 
-def g_dcase(heapdump, observed):
+def g_dcase(heapdump, observed, literal=False):
     nodes = []
     for n in heapdump["nodes"]:
         nodes.append(f"{{| n_fields := {glist(g_value(v) for v in n['fields'])}; n_pre := {glist(map(str, n['pre']))}; "
                      f"n_init := {glist(map(str, n['init']))}; n_task := {gopt(n['task'], str)}; "
                      f"n_jobof := {gopt(n['jobof'], str)}; n_loaded := {gbool(n['loaded'])}; n_sub := None |}}")
     return (f"{{| d_heap := {glist(nodes)}; d_root := 0; d_explicit := {glist(map(str, heapdump['explicit']))}; "
-            f"d_observed := {glist(map(str, observed))} |}}")
+            f"d_observed := {glist(map(str, observed))}; "
+            f"d_falsy := {glist(str(i) for i, n in enumerate(heapdump['nodes']) if n.get('falsy'))}; d_literal := {gbool(literal)} |}}")
 
 
 DEPS_HEADER = ("From Coq Require Import List Bool.\nFrom XV Require Import model.Deps corr.DepsCorr.\n"
@@ -595,6 +638,14 @@ def run_sched_check(c, profile, oracles, n_quick, n_thorough, golden_name, rule,
     for i in range(0, len(cases), B):
         traces += run_impl("drive_c06.py", dict(cases=cases[i:i + B]), timeout=1500)
     fx = probe_fixes(traces[:4])
+    # does the tree still test the truth value of the task mark (W_FALSY: the falsy task is not collected)
+    literal = ["job", 0] not in (traces[4]["deps"][1] or [])
+    c.extra["task_mark_tested_by_truth_value"] = literal
+    # is the recorded status of a Dependency object kept when it is attached to a new job (W_REUSE sleeps)
+    sn5 = last_snap(traces[5])
+    stale = bool(sn5 and sn5["jobs"][1] is not None and sn5["jobs"][1]["result"] is None and sn5["jobs"][1]["state"] == "WAITING"
+                 and not sn5["pending"])
+    c.extra["dependency_status_kept_on_reuse"] = stale
     c.extra["repairs_present_in_implementation"] = dict(resubmit_registers=fx[0], ready_only_when_notstarted=fx[1],
                                                         aborted_start_keeps_ready=fx[2],
                                                         failed_dependency_spares_running_job=fx[3])
@@ -621,6 +672,8 @@ def run_sched_check(c, profile, oracles, n_quick, n_thorough, golden_name, rule,
             c.count("exit:" + ("0" if spec["code"] == 0 else "nonzero"))
             if spec["marker"]:
                 c.count("marker")
+            if falsy_task(t, j) and t["deps"][j] is not None:
+                c.count("falsy-task" + (":embedded" if any(resolve(t, kk) == j for s2 in w["jobs"] for (kk, _h) in s2["embed"]) else ""))
             if spec.get("over"):
                 c.count("requests-exceed-token:" + ("refused" if str(j) in {str(k) for k in t.get("refused", {})} else "accepted"))
             if len({tt for tt, _ in spec["toks"]}) < len(spec["toks"]):
@@ -655,8 +708,12 @@ def run_sched_check(c, profile, oracles, n_quick, n_thorough, golden_name, rule,
                                         what=what, final=sample(w, t)))
 
         for orc in oracles:
+            if profile != "c06" and w.get("jobs") and any(s2.get("reuse") for s2 in w["jobs"]):
+                break                     # (W_REUSE is only a probe outside C06: the sleeping job is C06's finding)
             orc(w, t, report)
-        if renderable(w, t):
+        if any(s2.get("reuse") and t["deps"][jj] is not None for jj, s2 in enumerate(w["jobs"])):
+            c.count("reused-dependency-objects")
+        if renderable(w, t) and not (stale and any(s2.get("reuse") for s2 in w["jobs"])):
             render.append((w, t))
         else:
             c.count("not-rendered")
@@ -677,7 +734,7 @@ def run_sched_check(c, profile, oracles, n_quick, n_thorough, golden_name, rule,
                 obs = sorted({d[1] for d in t["deps"][j] if d[0] == "job"})
                 dcases.append((hd, obs, w, j))
                 c.count(f"heap-nodes={min(len(hd['nodes']), 12)}")
-        badd = c.corr_shards("deps", DEPS_HEADER, dcases, lambda p: g_dcase(p[0], p[1]), "check_deps", shard=400)
+        badd = c.corr_shards("deps", DEPS_HEADER, dcases, lambda p: g_dcase(p[0], p[1], literal), "check_deps", shard=400)
         c.extra["disagreeing_dependency_sets"] = [dict(job=dcases[i][3], observed=dcases[i][1], heap=dcases[i][0],
                                                        workload=dcases[i][2]) for i in badd[:3]]
     c.extra["disagreeing_cases"] = [sample(*render[i]) for i in bad[:3]]
